@@ -11,6 +11,10 @@ def thr_query(pid, n, npan, timeout=900):
     q.unwindset = {'ifill.0': 16 * n + 8}
     return q
 
+def snode_query(pid, w, j0, prec='d'):
+    return Query('%s.snode.%s.w%d.j%d' % (pid, prec, w, j0), 'snode_h.c', [('p%sgstrf_factor_snode.c' % prec, [])], defs={'W': w, 'J0': j0}, engine='sat', unwind=4 * w + 12,
+                 timeout=300, group='relaxed supernode: first singular column reported, any subset of columns singular')
+
 def nocand_query(pid, nsupc):
     return Query('%s.pivotL.nocand.c%d' % (pid, nsupc), 'pivot_h.c', PIV_SRCS,
                  defs={'NSUPC': nsupc, 'NSUPR': nsupc, 'DIAG': '(-1)', 'OLD': '(-1)', 'USEPR': 0, 'NOCAND': None}, engine='sat',
@@ -21,6 +25,8 @@ def plan(tier, seed):
     if tier == 'thorough':
         qs += [thr_query('C06', 6, 3, 3000), thr_query('C06', 8, 4, 6000)]
     qs += [nocand_query('C06', c) for c in (0, 1, 2)]
+    # a relaxed supernode with any subset of its columns singular hands up the first one (real p?gstrf_factor_snode, d and z)
+    qs += [snode_query('C06', w, j0) for (w, j0) in ((1, 0), (2, 1), (3, 1), (4, 0))]
     # the zero-pivot return of the real pivotL (all candidates exactly zero) is part of the pivotL unit spec
     qs += [q for q in pivot_queries('C06', 'quick') if '.u0' in q.name and '.c2.' not in q.name]
     return qs
